@@ -83,6 +83,7 @@ func (g *Gen) instr(st *State, ins ssa.Instruction) {
 		r := g.allocRef(st, x.Comment)
 		g.val[x] = r
 		g.storeAt(st, r, et, "", g.sc.sorts.zero(et))
+		g.initGhostFields(st, et, r)
 	case *ssa.FieldAddr:
 		if g.localPathOf(x) != nil {
 			return
@@ -640,4 +641,20 @@ func (g *Gen) bitOp(op, a, b string) string {
 		}
 	}
 	return fmt.Sprintf("(%s %s %s)", fn, a, b)
+}
+
+// initGhostFields: integer ghost fields of a freshly allocated object start at 0 (e.g. new(big.Int)).
+func (g *Gen) initGhostFields(st *State, t types.Type, ref string) {
+	n, ok := t.(*types.Named)
+	if !ok || n.Obj().Pkg() == nil {
+		return
+	}
+	owner := n.Obj().Pkg().Path() + "." + n.Obj().Name()
+	for _, gf := range g.eng.db.GhostFields {
+		if gf.Owner == owner && gf.Type == "int" {
+			tag := "GF!" + sanitize(gf.Owner) + "!" + gf.Name
+			g.sc.regTag(tag, "(Array Ref Int)")
+			st.mem[tag] = g.sc.define("m_"+tag, "(Array Ref Int)", fmt.Sprintf("(store %s %s 0)", g.sc.lookup(st, tag), ref))
+		}
+	}
 }
